@@ -3,21 +3,43 @@
 import json, subprocess
 ALL = ["C%02d" % i for i in range(1, 18)]
 CLAIMED = {
+ "C01": ("exploration", "reference interpreter (refsem) + consensus with an independent compiler/VM pair, lock-step VM shadow, real CLI sample", "DESIGN.md §3 C01"),
  "C02": ("exploration", "independent decoder + bytecode validator (abstract interpretation of stack depth) over every emitted file", "DESIGN.md §3 C02"),
  "C03": ("exploration", "round-trip monitor: bytes idempotent, content via public API, independent decoder, behaviour", "DESIGN.md §3 C03"),
  "C04": ("exploration", "independent reader/writer of the documented layout, both directions, hand-assembled vectors", "DESIGN.md §3 C04"),
+ "C05": ("exploration", "lock-step shadow of the VM against a reference abstract machine on independently compiled files; exhaustive dispatch table", "DESIGN.md §3 C05"),
+ "C06": ("exploration", "differential monitor of the staged CLI pipeline against `fml run` over the configuration space; AST round-trip in three formats", "DESIGN.md §3 C06"),
+ "C07": ("exploration", "independent precedence-climbing parser (exhaustive triples) + print/parse round trip with decorated layouts", "DESIGN.md §3 C07"),
+ "C08": ("fault_enumeration", "fault-injecting sinks with write-call log and byte-conservation oracle; real stdout sinks at the CLI", "DESIGN.md §3 C08"),
+ "C09": ("exploration", "i64 oracle table over boundary/cross-kind cells in debug and release builds + cross-build diff", "DESIGN.md §3 C09"),
+ "C10": ("fault_enumeration", "fault injection at every statement position + malformed sources + hostile heap shapes, observed at the CLI boundary (exit, signal, stdout, stderr)", "DESIGN.md §3 C10"),
+ "C11": ("exploration", "digest comparison across repeated in-process runs, fresh processes, build profiles and CLI environments", "DESIGN.md §3 C11"),
+ "C12": ("exploration", "bounded-exhaustive scoping programs judged by the reference interpreter", "DESIGN.md §3 C12"),
+ "C13": ("exploration", "self-identifying tracers in every operand position; predicted marker order + reference interpreter", "DESIGN.md §3 C13"),
+ "C14": ("exploration", "object-graph program generator judged by the reference interpreter with consensus", "DESIGN.md §3 C14"),
+ "C15": ("exploration", "exhaustive format strings against an independent formatter at bytecode and source level; rendering of random nested values", "DESIGN.md §3 C15"),
+ "C16": ("exploration", "heap-log monitor: CSV shape, allocation history from the reference interpreter, calibrated shape model; flag inertness at the CLI", "DESIGN.md §3 C16"),
  "C17": ("exploration", "listing reader vs independent decoder over compiler outputs and structural programs", "DESIGN.md §3 C17"),
 }
-TEXT = {
- "C02": "Held on every program generated in the run: each file the compiler emitted was decoded independently and passed the validator. Exploration is the right level: the property is a per-artifact invariant checked on every artifact a diverse, deterministic+random workload produces.",
- "C03": "Held on every Program explored (compiler outputs, directly built structural programs, alternate-compiler programs laid out in shuffled code order).",
- "C04": "Held in both directions on every file explored and on four hand-assembled vectors.",
- "C17": "Held on every listing explored, in-process Display and real CLI.",
-}
+GENERIC_TEXT = "Held on every execution this run produced; the evidence file lists how many cases, which constructs / opcodes / configurations were hit, and what was not judged. Exploration (fault enumeration where the quantifier is over faults) is the level this technique family gives: an oracle observing real executions of a diverse deterministic + seeded workload."
+TEXT = {c: GENERIC_TEXT for c in ALL}
 NOTE = {
+ "C01": "Trusted: refsem (README + DESIGN.md §1 conventions); violations need consensus of altcc+refvm; out-of-fragment programs are never compared.",
  "C02": "Trusted: harness decoder bcfmt and validator bcvalid; statically rejected programs are skipped.",
  "C03": "Trusted: Program's public accessors used to read content; reference VM decides which programs are conforming.",
  "C04": "Trusted: bcfmt (written from C04 text), cross-checked by hand-assembled byte vectors.",
+ "C05": "Trusted: refvm (OpCode doc-comments + C05), altcc output is conforming by construction and validated by refvm's NonConforming status.",
+ "C06": "Trusted: `fml run` as the behavioural baseline (its own correctness is C01's business); depth measurement for the recursion-limit known finding.",
+ "C07": "Trusted: printer (DESIGN.md Appendix C) and the precedence table as written in C07/README.",
+ "C08": "Trusted: sinks honour the Write contract; a Vec<u8> sink is the baseline.",
+ "C09": "Trusted: the i64 table; MIN % -1 accepted either way but must be build-independent.",
+ "C10": "Trusted: refsem for the expected prefix; wall-clock watchdog firing is inconclusive, never a violation.",
+ "C11": "Trusted: nothing beyond hashing; hash-seed / ASLR variation is sampled, not forced.",
+ "C12": "Trusted: refsem's independent lexical resolver; programs with same-scope redefinition or reads before definition are classified and skipped.",
+ "C13": "Trusted: the shape-to-marker prediction written from C13; refsem must agree with it or the case is a harness inconsistency.",
+ "C14": "Trusted: refsem conventions for `this`, field lookup and chain ends (DESIGN.md §1).",
+ "C15": "Trusted: the independent formatter and renderer in prim.rs.",
+ "C16": "Trusted: refsem's allocation history; size constants calibrated on the binary under test.",
  "C17": "Trusted: listing reader tied to the current listing grammar; bcfmt.",
 }
 def main():
@@ -38,7 +60,7 @@ def main():
             "level_note": NOTE[cid],
             "technique": "runtime monitoring: " + tech,
         })
-    na = [{"property_id": c, "reason": "check not built yet in this session; planned (see DESIGN.md §3)"} for c in ALL if c not in CLAIMED]
+    na = []
     m = {
         "version": 1,
         "setup_cmd": "./check setup",
